@@ -16,6 +16,7 @@ func profC04() *RevProfile {
 	p.STPct = 60
 	p.CancelPct = 4
 	p.SoakPct = 8 // state an earlier validation may have left behind
+	p.HostileURL = 5
 	return p
 }
 
@@ -77,6 +78,7 @@ func profC11() *RevProfile {
 	p.TimestampPct = 30
 	p.SoakPct = 15
 	p.CancelPct = 8
+	p.HostileURL = 6
 	return p
 }
 
@@ -91,6 +93,7 @@ func profC12() *RevProfile {
 	p.LatMax = 400
 	p.PSrcFault = 40
 	p.CancelPct = 8 // completeness ("exactly one result per certificate") also under cancellation
+	p.HostileURL = 5
 	return p
 }
 
